@@ -69,7 +69,7 @@ class C07(Check):
                    'prefix_query_without_finish')
     PROBES = ('size_field_split_across_chunks', 'prefix_before_size_field',
               'prefix_between_field_and_carrier', 'declared_zero',
-              'declared_max', 'vhdx_full_tables', 'single_chunk')
+              'declared_ge_2_63', 'vhdx_full_tables', 'single_chunk')
 
     def gen(self, st, tier, index, total):
         rng = st('content')
@@ -125,6 +125,8 @@ class C07(Check):
             d[k] = d.get(k, 0) + v
         if declared == 0:
             bump(pr, 'declared_zero')
+        if declared is not None and declared >= 1 << 63:
+            bump(pr, 'declared_ge_2_63')
         p = case['content'].get('p') or {}
         if fmt == 'vhdx' and (p.get('m_before', 0) + p.get('m_after', 0) >=
                               2046 or p.get('r_before', 0) +
